@@ -2,7 +2,7 @@
 from . import sesscheck as SC
 
 MODULE = "Props.C01"
-PROFILE = {"wrap": 0.15, "publish": 22, "ack": 14, "inbound": 2, "connect": 8, "fault": 8, "restart": 1.5, "call": 3, "response": 2,
+PROFILE = {"blocked": 5, "wrap": 0.15, "publish": 22, "ack": 14, "inbound": 2, "connect": 8, "fault": 8, "restart": 1.5, "call": 3, "response": 2,
            "hostile": 1, "close": 0.2, "bigbuf": 0.1}
 
 
